@@ -67,7 +67,11 @@ def rangeLine (t : IntTy) (strong : Bool) (r : IntRange) : String :=
         | .error _ => "ub"
       else "-"
     | .error _ => "-"
-  s!"{showElems el} size={sz} rs={rs} be={r.begin_}:{r.end_}"
+  -- `range::singular` does not compile for ranges over strong typedefs (`std::next` needs an integral difference_type)
+  let sg := if strong then "-" else match r.singular t with
+    | .ok b => b01 b
+    | .error _ => "ub"
+  s!"{showElems el} size={sz} rs={rs} be={r.begin_}:{r.end_} es={b01 r.empty}{sg}"
 
 def irLine (t : IntTy) (strong : Bool) (b e : Int) : String := rangeLine t strong (makeIntRange b e)
 
@@ -77,7 +81,10 @@ def irsDigest (t : IntTy) (strong : Bool) (b : Int) : String :=
   "D " ++ hex64 h
 
 def enumLine (w : Nat) (r : EnumRange) : String :=
-  s!"{showElems (r.elems w (cap + 1))} size={r.size w}"
+  let sg := match r.singular w with
+    | .ok b => b01 b
+    | .error _ => "ub"
+  s!"{showElems (r.elems w (cap + 1))} size={r.size w} es={b01 r.empty}{sg}"
 
 def val (k : Int) : Int := 3 * k + 1
 
@@ -203,13 +210,13 @@ def nbLine (t : IntTy) (x y : Int) : String :=
 def container (L : Nat) : List Int := (List.range L).map (fun (k : Nat) => val (k : Int))
 
 def itrLine (L i j : Nat) : String :=
-  let r := iterMakeRange i j
-  s!"{showElems (r.elems (container L) (cap + 1))} size={r.size}"
+  let r := if (i + j) % 3 = 2 then iterFromPair (i, j) else iterMakeRange i j
+  s!"{showElems (r.elems (container L) (cap + 1))} size={r.size} es={b01 r.empty}{b01 r.singular}"
 
 def adrLine (L : Nat) : String :=
   let c := container L
   let r := adaptRange c
-  s!"{showElems (r.elems c (cap + 1))} size={r.size}"
+  s!"{showElems (r.elems c (cap + 1))} size={r.size} es={b01 r.empty}{b01 r.singular}"
 
 def itrcLine (i j k l : Nat) : String :=
   let r1 := iterMakeRange i j
